@@ -1,25 +1,83 @@
 (* C14 — observables are recorded exactly at their requested times.
-   Only final statements; every proof is `exact <lemma>`.  The model is Model/TimeGrid.v (`run`:
-   hand model of the recording logic of emu-sv and emu-mps and of pulser-core 1.9.1's
-   Observable.__call__ / _validate_eval_times / Results._store_raw), tied to /repo by
-   tools/props/c14.py (bit-exact at PrimFloat on real runs of emu-sv, emu-mps TDVP and DMRG).
+   Only final statements; every proof is `exact <lemma>`.  The model is Model/TimeGrid.v
+   (`run`, `run_config`: hand model of the adapter's grid, of the recording logic of emu-sv and
+   emu-mps, and of pulser-core 1.9.1's Observable.__call__ / _validate_eval_times /
+   Results._store_raw), tied to /repo by tools/props/c14.py (bit-exact at PrimFloat on real runs
+   of emu-sv, emu-mps TDVP and DMRG).
    Notation: gate tolb dflt tolp o t = the backend's _is_evaluation_time (tolerance tolb = 1e-10)
-   AND pulser's time gate (tolerance tolp = 0.5/int(T)); on_grid tt T t k = "t is the k-th
-   target time divided by T"; a stored pair (t, k) = value stored under time t, computed from the
-   state after exactly k solver steps. *)
+   AND pulser's time gate (tolerance tolp = tolp_of tol0 T = 0.5/int(T), or tol0 when int(T)=0);
+   on_grid g T t k = "t is the k-th target time divided by T"; a stored pair (t, k) = value
+   stored under time t, computed from the state after exactly k solver steps; lists of stored
+   pairs are most-recent-first, `desc r` = times strictly decreasing along r, i.e. stored in
+   strictly increasing time order; requested_of dflt o e = e is one of o's own times, or o has
+   none and e is a default time of the config. *)
 From Coq Require Import ZArith List Reals Sorted PrimFloat.
 From EV Require Import Base.Arith Model.TimeGrid Proofs.TimeGridProofs Proofs.RecordProofs.
 Import ListNotations.
 Open Scope R_scope.
 
-(* A run (either backend flavour) on any strictly increasing grid 0 = t_0 < ... < t_n = T whose
-   relative times are at least tolu (pulser's 1e-12) apart NEVER raises (neither pulser's
-   uniqueness/ordering validation of the Statistics times, nor "value already stored", nor the
-   "times are not sorted" assertion, nor an index error), and:
-   - every observable o holds a value for (t, k) iff t = t_k/T and both time gates accept t:
-     so at most once per grid time, in grid order, computed after exactly k steps (time 0
-     included, multiples of dt or not);
-   - the Statistics observable holds exactly one value per completed step. *)
+(* Adapter + backend, NO separation premise (it is derived from C21_grid_spec): for every
+   duration > 0, dt > 0, merge tolerance 0 < tolu < 1, observables with requested times in [0,1]
+   ("Full" default only if all have own times), either backend flavour, the whole pipeline
+   never raises (neither pulser's uniqueness/ordering validation of the run's times, nor "value
+   already stored", nor the "times are not sorted" assertion, nor an index error), and
+   - every observable holds a value for (t, k) iff t = g_k/T and both time gates accept t:
+     at most once per grid time, computed after exactly k steps (time 0 included);
+   - values are stored in strictly increasing time order;
+   - the Statistics observable holds exactly one value per completed step;
+   - exactly the steps (g_k, g_k+1 - g_k) were taken. *)
+Theorem C14_pipeline_records_gated_grid_times :
+  forall tolb tol0 tolu mps dur dt (obs : list (option (list R))) dflt,
+  0 < dur -> 0 < dt -> 0 < tolu < 1 -> 0 <= tol0 ->
+  (forall t, requested_by obs dflt t -> 0 <= t <= 1) ->
+  (dflt = None -> Forall (fun o => o <> None) obs) ->
+  exists g st,
+    get_target_times R_arith R_floor tolu dur dt obs dflt = Ok g /\
+    run_config R_arith R_floor tolb tol0 tolu mps dur dt obs dflt = Ok st /\
+    0 <= tolp_of tol0 dur /\
+    Forall2 (fun o r => forall t k, In (t, k) r <->
+                          on_grid g dur t k /\ gate tolb dflt (tolp_of tol0 dur) o t = true)
+            obs (r_recs st) /\
+    (forall t k, In (t, k) (r_stat st) <-> on_grid g dur t k /\ (1 <= k)%nat) /\
+    Forall desc (r_recs st) /\
+    rev (r_steps st) = intervals g.
+Proof. exact run_config_recorded. Qed.
+
+(* Recorded exactly at the requested times, once, in order.  Additional premises: the merge
+   tolerance is not larger than the two gate tolerances (1e-12 <= 1e-10 and <= 0.5/T), and the
+   INPUT is sane: two distinct candidate points (multiples of dt, requested times, the
+   duration) are never within 2*tolb = 2e-10 (relative) of each other unless they are within
+   tolu = 1e-12, i.e. unless they are the same instant for pulser and get merged.  Then for
+   every observable:
+   - every stored value sits on the grid (t = g_k/T, computed after exactly k steps) and t is
+     within tolu of a time requested for THIS observable (own times; config default only if
+     it has none);
+   - every requested time e has a stored value within tolu of e, and that is the only stored
+     value within tolb of e;
+   - values are stored in strictly increasing time order. *)
+Theorem C14_recorded_exactly_at_requested_times :
+  forall tolb tol0 tolu mps dur dt (obs : list (option (list R))) dflt,
+  0 < dur -> 0 < dt -> 0 < tolu < 1 -> 0 <= tol0 ->
+  tolu <= tolb -> tolu <= tolp_of tol0 dur ->
+  (forall t, requested_by obs dflt t -> 0 <= t <= 1) ->
+  (dflt = None -> Forall (fun o => o <> None) obs) ->
+  (forall x y, is_candidate dur dt obs dflt x -> is_candidate dur dt obs dflt y ->
+     Rabs (x / dur - y / dur) <= 2 * tolb -> Rabs (x / dur - y / dur) < tolu) ->
+  exists g st,
+    get_target_times R_arith R_floor tolu dur dt obs dflt = Ok g /\
+    run_config R_arith R_floor tolb tol0 tolu mps dur dt obs dflt = Ok st /\
+    Forall2 (fun o r =>
+      (forall t k, In (t, k) r ->
+         on_grid g dur t k /\ exists e, requested_of dflt o e /\ Rabs (e - t) < tolu) /\
+      (forall e, requested_of dflt o e ->
+         exists t k, In (t, k) r /\ Rabs (e - t) < tolu /\
+           forall t' k', In (t', k') r -> Rabs (e - t') <= tolb -> t' = t /\ k' = k))
+      obs (r_recs st) /\
+    Forall desc (r_recs st).
+Proof. exact recorded_exactly_requested. Qed.
+
+(* The same for a run on any given separated grid (not necessarily produced by the adapter,
+   e.g. a hand-built SequenceData): never raises, recorded iff gated, in order. *)
 Theorem C14_run_records_gated_grid_times :
   forall tolb tol0 tolu mps suf (obs : list (option (list R))) dflt,
   let tt := 0 :: suf in
@@ -32,51 +90,43 @@ Theorem C14_run_records_gated_grid_times :
     0 <= tolp /\ tolp = (if (Int_part T =? 0)%Z then tol0 else 1 / 2 / IZR (Int_part T)) /\
     Forall2 (fun o r => forall t k, In (t, k) r <-> on_grid tt T t k /\ gate tolb dflt tolp o t = true)
             obs (r_recs st) /\
-    (forall t k, In (t, k) (r_stat st) <-> on_grid tt T t k /\ (1 <= k)%nat).
+    (forall t k, In (t, k) (r_stat st) <-> on_grid tt T t k /\ (1 <= k)%nat) /\
+    Forall desc (r_recs st).
 Proof. exact run_recorded. Qed.
 
-(* Every requested time in [0,1] passes both gates (with C21_grid_spec: it is on the grid, hence
-   it is recorded). *)
-Theorem C14_requested_times_are_recorded : forall tolb dflt tolp o t,
+(* The gates: every requested time in [0,1] is accepted ... *)
+Theorem C14_requested_times_are_accepted : forall tolb dflt tolp o t,
   0 <= tolb -> 0 <= tolp -> 0 <= t <= 1 -> requested_of dflt o t -> gate tolb dflt tolp o t = true.
 Proof. exact gate_complete. Qed.
 
-(* Exactly the requested times, under the separation premise: if no requested time of the
-   observable lies within max(1e-10, 0.5/T) of the grid time t other than t itself, then t is
-   recorded iff it is requested (own times, or the config default when it has none). *)
-Theorem C14_recorded_iff_requested_under_separation : forall tolb dflt tolp o t,
-  0 <= tolb -> 0 <= tolp -> 0 <= t <= 1 ->
-  (forall e, requested_of dflt o e -> Rabs (e - t) <= Rmax tolb tolp -> e = t) ->
-  (gate tolb dflt tolp o t = true <-> requested_of dflt o t).
-Proof. exact gate_exact. Qed.
+(* ... and (since the F-07 fix, whatever the config default) an accepted time is within the
+   backend tolerance 1e-10 of a time requested for this very observable. *)
+Theorem C14_accepted_times_are_requested : forall tolb dflt tolp o t,
+  gate tolb dflt tolp o t = true ->
+  0 <= t <= 1 /\
+  match o, dflt with
+  | None, None => True
+  | _, _ => exists e, requested_of dflt o e /\ Rabs (e - t) <= tolb
+  end.
+Proof. exact gate_sound. Qed.
 
-(* Without the separation the property is false, already in exact arithmetic (finding F-07, key
-   recorded-at-unrequested-default-time): an observable with own times ts is accepted at any
-   DEFAULT evaluation time d of the config lying within pulser's tolerance 0.5/T of an own time,
-   because _is_evaluation_time ORs over the default times. *)
-Theorem C14_unrequested_default_time_accepted : forall tolb tolp ts d e (dl : list R),
-  0 <= tolb -> 0 <= d <= 1 -> In d dl -> In e ts -> Rabs (e - d) <= tolp ->
-  gate tolb (Some dl) tolp (Some ts) d = true.
-Proof. exact gate_accepts_near_default. Qed.
-
-(* REFUTED on the faithful binary64 model (F-07): duration 1000 ns, dt 10, observable 0 with own
-   times [0.5], observable 1 on the default times [0.5003, 1.0]: observable 0 is recorded at 0.5
-   AND at 0.5003. *)
-Theorem C14_recorded_exactly_requested_refuted :
-  exists st,
-    run_config float_arith float_floor w_tolb w_tol0 w_tolu false 1000%float 10%float
+(* Regression of finding F-07 (fixed in d77be2b) on the faithful binary64 model: duration
+   1000 ns, dt 10, observable 0 with own times [0.5], observable 1 on the default times
+   [0.5003, 1.0]: observable 0 is recorded at 0.5 only, observable 1 at 0.5003 and 1.0. *)
+Theorem C14_f07_witness_now_passes_float :
+  forall mps, exists st,
+    run_config float_arith float_floor w_tolb w_tol0 w_tolu mps 1000%float 10%float
                [Some w07_own; None] (Some w07_dflt) = Ok st /\
-    recorded_times (Ok st) 0 = [0.5; 0x1.0027525460aa6p-1]%float /\
-    recorded_times (Ok st) 1 = [0x1.0027525460aa6p-1; 1]%float.
-Proof. exact f07_float. Qed.
+    recorded_times (Ok st) 0 = w07_own /\
+    recorded_times (Ok st) 1 = w07_dflt.
+Proof. exact f07_witness_float. Qed.
 
-(* REFUTED (F-07 with default_evaluation_times = "Full"): with dt = 1 ns the observable with own
-   times [0.5] is recorded once, with dt = 0.25 ns three times (every grid time within 0.5/T). *)
-Theorem C14_recorded_once_full_default_refuted :
-  exists st,
+(* Regression of F-07 with default_evaluation_times = "Full": recorded once, for dt = 1 ns and
+   for dt = 0.25 ns (formerly three times). *)
+Theorem C14_f07_full_witness_now_passes_float :
+  exists st st2,
     run_config float_arith float_floor w_tolb w_tol0 w_tolu true 100%float 1%float [Some w07_own] None = Ok st /\
-    length (recorded_times (Ok st) 0) = 1%nat /\
-    exists st2,
+    recorded_times (Ok st) 0 = w07_own /\
     run_config float_arith float_floor w_tolb w_tol0 w_tolu true 100%float 0.25%float [Some w07_own] None = Ok st2 /\
-    length (recorded_times (Ok st2) 0) = 3%nat.
-Proof. exact f07_full_float. Qed.
+    recorded_times (Ok st2) 0 = w07_own.
+Proof. exact f07_full_witness_float. Qed.
